@@ -2,6 +2,7 @@ package transaction
 
 import (
 	"fmt"
+	"strings"
 	"time"
 
 	"github.com/sboehler/knut/lib/common/compare"
@@ -49,10 +50,12 @@ type Builder struct {
 
 // Build builds a transactions.
 func (tb Builder) Build() *Transaction {
+	// the syntax has no escape for a double quote inside a description; replacing it here (and
+	// not only when printing) keeps the order of a day's transactions the same as in the printed text
 	return &Transaction{
 		Src:         tb.Src,
 		Date:        tb.Date,
-		Description: tb.Description,
+		Description: strings.ReplaceAll(tb.Description, "\"", "'"),
 		Postings:    tb.Postings,
 		Targets:     tb.Targets,
 	}
